@@ -52,28 +52,7 @@ def has_decimal(v, depth=0):
     return False
 
 
-def doc_eq(a, b):
-    """Equality of two serialized documents, up to the order of a list (the JSON form of a set has no order of its own;
-    the order of Arrays is compared on the instances)."""
-    if type(a) is not type(b):
-        return False
-    if isinstance(a, dict):
-        return a.keys() == b.keys() and all(doc_eq(a[k], b[k]) for k in a)
-    if isinstance(a, list):
-        if len(a) != len(b):
-            return False
-        if all(doc_eq(x, y) for x, y in zip(a, b)):
-            return True
-        rest = list(b)
-        for x in a:
-            for i, y in enumerate(rest):
-                if doc_eq(x, y):
-                    del rest[i]
-                    break
-            else:
-                return False
-        return True
-    return a == b
+doc_eq = X.doc_eq
 
 
 def observe(x, cls, compact, loose=False, fixpoint_only=False):
@@ -194,6 +173,11 @@ def needs_deserializer(g):
     return any(needs_deserializer(s) for s in subs)
 
 
+def Serializer_doc(T, stored):
+    from typedpy import Serializer
+    return Serializer(T(f=stored)).serialize().get("f")
+
+
 def classify(f, v, stage, exn, ctx=None):
     """Input-shape part of a finding key: the known defect shapes by name, anything else by its full shape."""
     t = f["t"]
@@ -208,6 +192,16 @@ def classify(f, v, stage, exn, ctx=None):
             g = X.serializing_option(f, stored, ctx)
             if g is not None and not X.accepts(g, stored, ctx):
                 return "anyof:serialized-by-an-option-that-rejects-the-value"
+            T = single_field_class(f, ctx)
+            doc = Serializer_doc(T, stored)
+            rd = X.deserializing_option(f, doc, ctx)
+            if rd is not None and stage in ("deser-raises", "not-equal", "not-fixpoint"):
+                h, w = rd
+                if not X.accepts(h, w, ctx):
+                    return "anyof:deserialized-by-an-option-that-rejects-the-result"
+                empty = v in (("list", []), ("deque", []), ("dict", []), ("tuple", [])) or (v[0] == "set" and not v[2])
+                if w is None and empty and "none" in X.kinds_in(h):
+                    return "anyof:NoneField-option-first-reads-empty-collection-as-None"
         except Exception:  # noqa
             pass
     n = len(v[1]) if v[0] in ("list", "deque", "tuple") else (len(v[2]) if v[0] == "set" else None)
